@@ -1,0 +1,366 @@
+//! Verification hooks.
+//!
+//! This module only exists when the crate is built with
+//! `--cfg rsjsonnet_verif`. It provides a thread-local event sink that
+//! the evaluator, the thunk state machine and the collector report to,
+//! knobs to force collections at chosen evaluator steps, and a scripted
+//! driver for the (private) garbage collector.
+//!
+//! Nothing here changes behaviour unless a harness installs the sink or
+//! sets a schedule.
+
+use std::cell::{Cell, RefCell};
+use std::collections::BTreeSet;
+use std::rc::Rc;
+
+use crate::gc::{Gc, GcContext, GcTrace, GcTraceCtx, GcView};
+
+#[derive(Clone, Debug, PartialEq, Eq)]
+pub enum Event {
+    /// An evaluation request started (`kind`: 0 value, 1 call, 2 manifest).
+    EvalBegin { kind: u8, limit: usize },
+    /// An evaluation request finished.
+    EvalEnd { ok: bool, frames: usize },
+    /// `ThunkData::switch_state` (0 pending, 1 in progress, 2 done).
+    ThunkSwitch { id: u64, from: u8, to: u8 },
+    /// `ThunkData::set_done`; `was` is the state it was in.
+    ThunkDone { id: u64, was: u8 },
+    /// `push_trace_item`
+    FramePush { frames: usize },
+    /// `delay_trace_item`
+    FrameDelay { frames: usize },
+    /// `State::TraceItem` popped
+    FramePop { frames: usize },
+    /// `State::DelayedTraceItem` popped
+    FrameResume { frames: usize },
+    /// End of a `run()` iteration in which frames changed.
+    Step { frames: usize, limit: usize },
+    /// `StackOverflow` is about to be reported.
+    Overflow { frames: usize, limit: usize },
+    /// `InfiniteRecursion` is about to be reported for thunk `id`.
+    InfRec { id: u64 },
+    /// A number that is not finite is on top of the value stack at the end
+    /// of a step (`class`: 1 infinite, 2 NaN).
+    NonFinite { class: u8 },
+    /// `Program::gc`
+    Gc { before: usize, after: usize },
+}
+
+#[derive(Clone, Debug, PartialEq, Eq)]
+pub enum GcSchedule {
+    /// The built-in heuristic.
+    Default,
+    /// Never collect during evaluation.
+    Never,
+    /// Collect at every step boundary `n` with `n % period == phase`.
+    Period { period: u64, phase: u64 },
+    /// Collect exactly at the listed step boundaries (sorted).
+    At(Vec<u64>),
+}
+
+thread_local! {
+    static SINK: RefCell<Option<Vec<Event>>> = const { RefCell::new(None) };
+    static SINK_LIMIT: Cell<usize> = const { Cell::new(usize::MAX) };
+    static NEXT_ID: Cell<u64> = const { Cell::new(1) };
+    static SCHEDULE: RefCell<GcSchedule> = const { RefCell::new(GcSchedule::Default) };
+    static STEP_NO: Cell<u64> = const { Cell::new(0) };
+    static GC_COUNT: Cell<u64> = const { Cell::new(0) };
+    static FRAMES_DIRTY: Cell<bool> = const { Cell::new(false) };
+}
+
+/// Starts recording events (at most `limit` of them; later ones are dropped
+/// and `take_events` reports the truncation).
+pub fn install_sink(limit: usize) {
+    SINK.with(|s| *s.borrow_mut() = Some(Vec::new()));
+    SINK_LIMIT.with(|l| l.set(limit));
+}
+
+/// Stops recording and returns what was recorded.
+pub fn take_events() -> Vec<Event> {
+    SINK.with(|s| s.borrow_mut().take().unwrap_or_default())
+}
+
+#[inline]
+pub(crate) fn emit(ev: impl FnOnce() -> Event) {
+    SINK.with(|s| {
+        if let Some(sink) = s.borrow_mut().as_mut() {
+            if sink.len() < SINK_LIMIT.with(|l| l.get()) {
+                sink.push(ev());
+            }
+        }
+    });
+}
+
+#[inline]
+pub(crate) fn next_id() -> u64 {
+    NEXT_ID.with(|c| {
+        let v = c.get();
+        c.set(v + 1);
+        v
+    })
+}
+
+#[inline]
+pub(crate) fn mark_frames_dirty() {
+    FRAMES_DIRTY.with(|c| c.set(true));
+}
+
+#[inline]
+pub(crate) fn take_frames_dirty() -> bool {
+    FRAMES_DIRTY.with(|c| c.replace(false))
+}
+
+pub fn set_gc_schedule(schedule: GcSchedule) {
+    SCHEDULE.with(|s| *s.borrow_mut() = schedule);
+    STEP_NO.with(|c| c.set(0));
+}
+
+/// Number of evaluator step boundaries seen since the schedule was set.
+pub fn step_count() -> u64 {
+    STEP_NO.with(|c| c.get())
+}
+
+/// Number of collections run since the thread started.
+pub fn gc_count() -> u64 {
+    GC_COUNT.with(|c| c.get())
+}
+
+pub(crate) fn note_gc() {
+    GC_COUNT.with(|c| c.set(c.get() + 1));
+}
+
+/// Decision for the step boundary that is being crossed:
+/// `None` = use the built-in heuristic, `Some(collect)` otherwise.
+pub(crate) fn schedule_decision() -> Option<bool> {
+    let n = STEP_NO.with(|c| {
+        let v = c.get();
+        c.set(v + 1);
+        v
+    });
+    SCHEDULE.with(|s| match &*s.borrow() {
+        GcSchedule::Default => None,
+        GcSchedule::Never => Some(false),
+        GcSchedule::Period { period, phase } => Some(*period != 0 && n % *period == *phase),
+        GcSchedule::At(steps) => Some(steps.binary_search(&n).is_ok()),
+    })
+}
+
+// ---------------------------------------------------------------------
+// Scripted driver for the collector
+
+struct Node {
+    id: usize,
+    alive: Rc<RefCell<BTreeSet<usize>>>,
+    edges: RefCell<Vec<Gc<Node>>>,
+}
+
+impl Drop for Node {
+    fn drop(&mut self) {
+        self.alive.borrow_mut().remove(&self.id);
+    }
+}
+
+impl GcTrace for Node {
+    fn trace<'a>(&self, ctx: &mut impl GcTraceCtx<'a>)
+    where
+        Self: 'a,
+    {
+        for edge in self.edges.borrow().iter() {
+            ctx.visit_obj(edge);
+        }
+    }
+}
+
+/// A heap of test nodes on the real `GcContext`, driven by id.
+///
+/// The driver holds exactly the handles the script asked for: `ext` weak
+/// handles (`Gc`) and strong views (`GcView`). To operate on a node it finds
+/// a handle by walking from those, as a mutator would.
+pub struct HeapDriver {
+    ctx: GcContext<'static>,
+    alive: Rc<RefCell<BTreeSet<usize>>>,
+    ext: Vec<(usize, Gc<Node>)>,
+    views: Vec<(usize, GcView<Node>)>,
+}
+
+#[derive(Clone, Debug, PartialEq, Eq)]
+pub enum HeapError {
+    /// The script named a node the mutator cannot reach.
+    Unreachable(usize),
+    /// No such handle / edge to drop.
+    NoSuch,
+    /// A handle the driver holds (or an edge of a reachable node) refers to
+    /// a destroyed object.
+    Destroyed(usize),
+}
+
+impl Default for HeapDriver {
+    fn default() -> Self {
+        Self::new()
+    }
+}
+
+impl HeapDriver {
+    pub fn new() -> Self {
+        Self {
+            ctx: GcContext::new(),
+            alive: Rc::new(RefCell::new(BTreeSet::new())),
+            ext: Vec::new(),
+            views: Vec::new(),
+        }
+    }
+
+    fn new_node(&self, id: usize) -> Node {
+        self.alive.borrow_mut().insert(id);
+        Node {
+            id,
+            alive: self.alive.clone(),
+            edges: RefCell::new(Vec::new()),
+        }
+    }
+
+    pub fn alloc(&mut self, id: usize) {
+        let h = self.ctx.alloc(self.new_node(id));
+        self.ext.push((id, h));
+    }
+
+    pub fn alloc_view(&mut self, id: usize) {
+        let v = self.ctx.alloc_view(self.new_node(id));
+        self.views.push((id, v));
+    }
+
+    fn upgrade(h: &Gc<Node>, id: usize) -> Result<GcView<Node>, HeapError> {
+        match std::panic::catch_unwind(std::panic::AssertUnwindSafe(|| h.view())) {
+            Ok(v) => Ok(v),
+            Err(_) => Err(HeapError::Destroyed(id)),
+        }
+    }
+
+    /// Finds a view of node `id` by walking from the held handles.
+    fn find(&self, id: usize) -> Result<GcView<Node>, HeapError> {
+        let mut seen = BTreeSet::new();
+        let mut queue: Vec<GcView<Node>> = Vec::new();
+        for (i, v) in self.views.iter() {
+            if seen.insert(*i) {
+                queue.push(v.clone());
+            }
+        }
+        for (i, h) in self.ext.iter() {
+            if seen.insert(*i) {
+                queue.push(Self::upgrade(h, *i)?);
+            }
+        }
+        while let Some(v) = queue.pop() {
+            if v.id == id {
+                return Ok(v);
+            }
+            let edges: Vec<Gc<Node>> = v.edges.borrow().clone();
+            for e in edges.iter() {
+                let t = Self::upgrade(e, usize::MAX)?;
+                if seen.insert(t.id) {
+                    queue.push(t);
+                }
+            }
+        }
+        Err(HeapError::Unreachable(id))
+    }
+
+    /// Every node the mutator can reach; fails if a reachable handle is dead.
+    pub fn reachable(&self) -> Result<BTreeSet<usize>, HeapError> {
+        let mut seen = BTreeSet::new();
+        let mut queue: Vec<GcView<Node>> = Vec::new();
+        for (i, v) in self.views.iter() {
+            if seen.insert(*i) {
+                queue.push(v.clone());
+            }
+        }
+        for (i, h) in self.ext.iter() {
+            if seen.insert(*i) {
+                queue.push(Self::upgrade(h, *i)?);
+            }
+        }
+        while let Some(v) = queue.pop() {
+            let edges: Vec<Gc<Node>> = v.edges.borrow().clone();
+            for e in edges.iter() {
+                let t = Self::upgrade(e, v.id)?;
+                if seen.insert(t.id) {
+                    queue.push(t);
+                }
+            }
+        }
+        Ok(seen)
+    }
+
+    pub fn add_edge(&mut self, from: usize, to: usize) -> Result<(), HeapError> {
+        let a = self.find(from)?;
+        let b = self.find(to)?;
+        a.edges.borrow_mut().push(Gc::from(&b));
+        Ok(())
+    }
+
+    /// Removes one edge `from -> to`.
+    pub fn del_edge(&mut self, from: usize, to: usize) -> Result<(), HeapError> {
+        let a = self.find(from)?;
+        let mut pos = None;
+        for (i, e) in a.edges.borrow().iter().enumerate() {
+            if Self::upgrade(e, from)?.id == to {
+                pos = Some(i);
+                break;
+            }
+        }
+        match pos {
+            Some(i) => {
+                a.edges.borrow_mut().remove(i);
+                Ok(())
+            }
+            None => Err(HeapError::NoSuch),
+        }
+    }
+
+    /// Adds an external weak handle to a reachable node.
+    pub fn add_ext(&mut self, id: usize) -> Result<(), HeapError> {
+        let v = self.find(id)?;
+        self.ext.push((id, Gc::from(&v)));
+        Ok(())
+    }
+
+    /// Adds a strong view of a reachable node.
+    pub fn add_view(&mut self, id: usize) -> Result<(), HeapError> {
+        let v = self.find(id)?;
+        self.views.push((id, v));
+        Ok(())
+    }
+
+    pub fn drop_ext(&mut self, id: usize) -> Result<(), HeapError> {
+        match self.ext.iter().position(|(i, _)| *i == id) {
+            Some(p) => {
+                self.ext.remove(p);
+                Ok(())
+            }
+            None => Err(HeapError::NoSuch),
+        }
+    }
+
+    pub fn drop_view(&mut self, id: usize) -> Result<(), HeapError> {
+        match self.views.iter().position(|(i, _)| *i == id) {
+            Some(p) => {
+                self.views.remove(p);
+                Ok(())
+            }
+            None => Err(HeapError::NoSuch),
+        }
+    }
+
+    pub fn gc(&mut self) {
+        self.ctx.gc();
+    }
+
+    /// Ids of the nodes that have not been destroyed.
+    pub fn live_ids(&self) -> Vec<usize> {
+        self.alive.borrow().iter().copied().collect()
+    }
+
+    pub fn num_objects(&self) -> usize {
+        self.ctx.num_objects()
+    }
+}
